@@ -47,7 +47,9 @@ TurnCame(a, pre) == IF FaultHit(a, pre)
    error or death stops right there, an unparseable rendering lets the package's generators finish *)
 (* the shadow fixture also declares package-level types t1, t2 (names that differ from T1, T2 only in case); sorted by bytes
    they come after T1, T2 *)
-ExtraTypes(c) == IF c.variant = "shadow" THEN <<"t1", "t2">> ELSE <<>>
+ExtraTypes(c) == IF c.variant = "shadow" THEN <<"t1", "t2">>
+                 ELSE IF c.variant = "big" THEN [i \in 1..30 |-> IF i < 10 THEN "U0" \o ToString(i) ELSE "U" \o ToString(i)]      \* 30 more types
+                 ELSE <<>>
 
 RECURSIVE TypeCalls(_, _, _, _)
 TypeCalls(c, a, todo, i) ==
